@@ -12,6 +12,9 @@ struct Caller {
     pair: Pair,
     cancelled: bool,
     waiting: bool, // path_wait (true) or cached_path (false)
+    /// number of removal requests (stop, idle expiry, drop) issued before this caller was created
+    removals_before: usize,
+    caller_no: usize,
 }
 
 pub fn drive_c20(h: &mut Hist) -> RunResult2 {
@@ -29,6 +32,7 @@ pub fn drive_c20(h: &mut Hist) -> RunResult2 {
     let mut pairs_requested: Vec<Pair> = Vec::new();
     let mut steps = 0u64;
     let mut seen_handouts = 0usize;
+    let mut stops: Vec<ActorId> = Vec::new();
 
     loop {
         steps += 1;
@@ -94,13 +98,15 @@ pub fn drive_c20(h: &mut Hist) -> RunResult2 {
                 }
                 let waiting = sim.chance(3, 4);
                 let actor = if waiting { h.op_send(pair) } else { h.op_try_send(pair) };
-                callers.push(Caller { actor, pair, cancelled: false, waiting });
+                // removal requests that are *over* (their actor finished) when the caller is created
+                let all_over = stops.iter().all(|a| sim.is_finished(*a));
+                callers.push(Caller { actor, pair, cancelled: false, waiting, removals_before: if all_over { removal_events } else { usize::MAX }, caller_no: h.callers - 1 });
                 spawned += 1;
             }
             3 => {
                 removal_events += 1;
                 let pair = h.pair(0);
-                h.op_stop(pair);
+                stops.push(h.op_stop(pair));
             }
             4 => h.op_gc(),
             5 => {
@@ -132,7 +138,7 @@ pub fn drive_c20(h: &mut Hist) -> RunResult2 {
         if let Some((id, name, msg)) = sim.take_panic() {
             return Err(("panic".into(), format!("actor {name}#{id}: {msg}")));
         }
-        check_outcomes(h, &mut seen_handouts, removal_events == 0 && !dropped_mgr)?;
+        check_outcomes(h, &mut seen_handouts, removal_events == 0 && !dropped_mgr, &callers, removal_events, dropped_mgr)?;
     }
 
     // ---- wind down: every lookup completes, everything runs to quiescence (pre-emption stays on)
@@ -157,7 +163,7 @@ pub fn drive_c20(h: &mut Hist) -> RunResult2 {
     if !sim.runnable().is_empty() {
         return Err(("harness/step-budget".into(), "actors still runnable after the wind-down budget".into()));
     }
-    check_outcomes(h, &mut seen_handouts, removal_events == 0 && !dropped_mgr)?;
+    check_outcomes(h, &mut seen_handouts, removal_events == 0 && !dropped_mgr, &callers, removal_events, dropped_mgr)?;
     check_quiescent(h, &callers)?;
     sim.probe("oracle-released");
 
@@ -258,7 +264,7 @@ fn check_quiescent(h: &mut Hist, callers: &[Caller]) -> RunResult2 {
 /// A released caller's outcome is consistent with the lookups that finished: while nothing was ever removed, if
 /// every lookup of the pair that finished so far succeeded with a usable path, no waiting caller may be released
 /// with an error.
-fn check_outcomes(h: &mut Hist, seen: &mut usize, nothing_removed: bool) -> RunResult2 {
+fn check_outcomes(h: &mut Hist, seen: &mut usize, nothing_removed: bool, callers: &[Caller], removal_events: usize, dropped_mgr: bool) -> RunResult2 {
     let hs: Vec<Handout> = {
         let g = h.handouts.lock().unwrap();
         g[*seen..].to_vec()
@@ -271,6 +277,17 @@ fn check_outcomes(h: &mut Hist, seen: &mut usize, nothing_removed: bool) -> RunR
             HandRes::Err(e) => format!("err({e})"),
         };
         h.sim.log(format!("released c{} {} {desc}", x.caller, x.kind));
+        // a caller must not be hit by a removal that was requested before it even asked: its worker may only exit
+        // because of a stop / idle expiry / drop issued after the caller arrived
+        if let (HandRes::Err(e), Some(c)) = (&x.res, callers.iter().find(|c| c.caller_no == x.caller)) {
+            if x.kind == "send" && e.contains("PathSet task exited") && c.removals_before == removal_events && !dropped_mgr {
+                h.sim.probe("oracle-stale-removal");
+                return Err((
+                    "C20/released-by-a-removal-requested-before-the-caller-arrived".into(),
+                    format!("caller c{} was released with '{e}' although no stop, idle expiry or drop was requested after it arrived ({} removal request(s) before)", x.caller, c.removals_before),
+                ));
+            }
+        }
         if !nothing_removed || x.kind != "send" || x.pair.0 == x.pair.1 {
             continue;
         }
